@@ -8,11 +8,14 @@ import traceback
 
 from . import impl
 
-APIS = ["prep", "readout", "compress", "mub_circuits", "mubs", "mub_info", "fst", "smc", "conn_graph", "classify", "class_graph"]
-FILE_KIND = {"prep": "stab", "readout": "stab", "compress": "stab", "smc": "stab",
+APIS = ["prep", "prep_neg", "readout", "compress", "mub_circuits", "mubs", "mub_info", "fst", "smc", "conn_graph", "classify", "class_graph",
+        "expand", "to_list", "decompress"]
+FILE_KIND = {"prep": "stab", "prep_neg": "stab", "readout": "stab", "compress": "stab", "smc": "stab",
+             "expand": "none", "to_list": "none", "decompress": "none",
              "mub_circuits": "mub", "mubs": "mub", "mub_info": "mub", "fst": "mub",
              "conn_graph": "none", "classify": "none", "class_graph": "none"}
-READS = {"prep": ["infos"], "readout": ["infos"], "compress": ["infos"], "smc": ["infos"],
+READS = {"prep": ["infos"], "prep_neg": ["infos"], "readout": ["infos"], "compress": ["infos"], "smc": ["infos"],
+         "expand": [], "to_list": [], "decompress": [],
          "mub_circuits": ["circuits"], "fst": ["circuits"], "mubs": ["mubs"], "mub_info": ["header"],
          "conn_graph": [], "classify": [], "class_graph": []}
 LOOKUP_APIS = ["lookup_stab", "lookup_mub"]      # circuit_lookup plumbing, thorough tier only
@@ -169,22 +172,35 @@ def _is_container(o):
 # ---------------------------------------------------------------------------------------------
 # the API actions
 # ---------------------------------------------------------------------------------------------
-def make_args(api, cfg, L):
+def make_args(api, cfg, L, held_args=None):
+    """Arguments of one call. The caller keeps ONE stabilizer object and ONE circuit object per register size for the whole history
+    (held_args) and passes them again and again, as a real caller would; everything else is built afresh."""
     n, conn = parse_cfg(cfg)
     strs, prog = FIXED[n]
     St = L.stabilizer.Stabilizer
+    held_args = held_args if held_args is not None else {}
+    if ("st", n) not in held_args:
+        held_args[("st", n)] = St(list(strs))
+        held_args[("qc", n)] = impl.circuit_from_gates(n, prog)
+    st, qc = held_args[("st", n)], held_args[("qc", n)]
     if api in ("prep", "readout"):
-        return [St(list(strs)), conn]
+        return [st, conn]
+    if api == "prep_neg":      # same generators, all signs flipped: a different state with the same sign-free group
+        return [St([("" if s.startswith("-") else "-") + s.lstrip("+-") for s in strs]), conn]
     if api == "compress":
-        return [impl.circuit_from_gates(n, prog), conn]
+        return [qc, conn]
+    if api in ("expand", "to_list"):
+        return [st]
+    if api == "decompress":
+        return [n, 1]
     if api in ("mub_circuits", "mubs", "mub_info", "conn_graph", "lookup_mub"):
         return [n, conn]
     if api == "fst":
-        return [impl.circuit_from_gates(n, prog), conn]
+        return [qc, conn]
     if api == "smc":
-        return [impl.circuit_from_gates(n, prog), St(list(strs)), conn]
+        return [qc, st, conn]
     if api == "classify":
-        return [St(list(strs))]
+        return [st]
     if api == "class_graph":
         return [n, 1]
     if api == "lookup_stab":
@@ -193,8 +209,14 @@ def make_args(api, cfg, L):
 
 
 def call_api(api, args, L):
-    if api == "prep":
+    if api in ("prep", "prep_neg"):
         return L.stabilizer_circuits.get_preparation_circuit(*args)
+    if api == "expand":
+        return args[0].expand()
+    if api == "to_list":
+        return args[0].to_list()
+    if api == "decompress":
+        return L.graph.Graph.decompress(*args)
     if api == "readout":
         return L.stabilizer_circuits.get_readout_circuit(*args)
     if api == "compress":
@@ -244,13 +266,19 @@ def project_cache(L):
 # ---------------------------------------------------------------------------------------------
 def run_history(hist, L):
     """hist: list of [kind, a, b]. Returns per-step observations."""
-    held = []
+    held = []          # [result object, serialisation at return time, mutated by the caller?]
+    held_args = {}
     obs = []
+
+    def stale():
+        """held results the caller did NOT touch but whose value changed since they were returned"""
+        return [i + 1 for i, h in enumerate(held) if not h[2] and h[0] is not None and ser(h[0], L) != h[1]]
+
     for step in hist:
         kind = step[0]
         if kind == "call":
             api, cfg = step[1], step[2]
-            args = make_args(api, cfg, L)
+            args = make_args(api, cfg, L, held_args)
             before = ser(args, L)
             try:
                 r = call_api(api, args, L)
@@ -258,13 +286,19 @@ def run_history(hist, L):
                 exc = ""
             except Exception as e:
                 r, res, exc = None, None, type(e).__name__ + ": " + str(e)[:100]
-            held.append(r)
-            obs.append({"step": step, "result": res, "exc": exc, "args_unchanged": ser(args, L) == before, "cache": project_cache(L)})
+            held.append([r, res, False])
+            obs.append({"step": step, "result": res, "exc": exc, "args_unchanged": ser(args, L) == before, "cache": project_cache(L), "stale": stale()})
         elif kind == "mutate":
             h = int(step[1])
             if 1 <= h <= len(held):
                 try:
-                    mutate(held[h - 1], L)
+                    # objects shared between several held results count as touched in all of them
+                    before = [ser(x[0], L) for x in held]
+                    mutate(held[h - 1][0], L)
+                    held[h - 1][2] = True
+                    for x, b in zip(held, before):
+                        if ser(x[0], L) != b:
+                            x[2] = True
                 except Exception as e:
                     obs.append({"step": step, "exc": "mutate:" + type(e).__name__, "cache": project_cache(L)})
                     continue
